@@ -102,7 +102,12 @@ def check_doc(chk: Check, site: driver.Site, c: Case, view: str, tls_mode=None) 
         mime = hdr.get("content-type", b"").decode("latin-1")
         if view in ("httphead", "waphead"):
             g = site.request(*reqs.render("http" if view == "httphead" else "wap", sel)[:1])
-            gd = parsers.parse_http(g.data)
+            try:
+                gd = parsers.parse_http(g.data)
+            except parsers.Malformed as e:
+                chk.witness("C04/not-a-document-reply:%s" % key_tail, dict(sample, reason="GET counterpart of the HEAD: %s" % e,
+                                                                          get_reply=g.data[:120]))
+                return
             if gd["headers"] != d["headers"] or gd["status"] != d["status"]:
                 chk.witness("C04/head-headers-differ-from-get", dict(sample, head=d["headers"], get=gd["headers"]))
                 return
